@@ -188,6 +188,7 @@ def result_values():
         ("str_empty", ""),
         ("str_nonascii", "héllo wörld 中文 \U0001F600"),
         ("str_newlines", "a\r\nb\nc\r"),
+        ("str_bom", "\ufeffid,name\n1,a\n"),  # text prepared for spreadsheet tools: starts with a byte-order mark
         ("bytes_plain", b"\x00\x01binary\xff"),
         ("bytes_empty", b""),
         ("bytes_all", bytes(range(256))),
